@@ -384,7 +384,7 @@ def parse_union(c, consts, tag_type, carrier, first_line):
         end_of_decl(c, f"function `{f['name']}`")
     if cases is None or not seen_marshal:
         raise ExtractError(f"{where}: UnmarshalJSON / MarshalJSON missing")
-    if tag_keys[1:] == [] or len(tag_keys) != 3:
+    if len(tag_keys) != 3 or len(content_keys) != 2:
         raise ExtractError(f"{where}: expected three tag key occurrences")
     # cross-checks: const block / decoding cases / constructors list the same variants in the same order
     if [k[0] for k in consts] != [k[0] for k in cases]:
@@ -412,7 +412,9 @@ def parse_union(c, consts, tag_type, carrier, first_line):
         variants.append(v)
     return {"name": name, "kind": "union", "generics": [], "variants": variants, "tag_keys": tag_keys,
             "content_keys": content_keys, "line": first_line, "tag_type": tag_type,
-            "tag_field": tag_field, "content_field": content_field}
+            "tag_field": tag_field, "content_field": content_field,
+            # extra Go facts (not part of the common format): method / function names this enum adds to the package
+            "accessors": [a[0] for a in accessors], "constructors": [k[0] for k in ctors]}
 
 
 # ------------------------------------------------------------------ top level
@@ -430,7 +432,7 @@ def parse_type_decl(c):
             if not c.eat(","):
                 break
         c.expect("]")
-    if c.at("struct") and c.text(1) == "{" and not (c.text(2) == "}" and c.kind(2) == "punct" and False):
+    if c.at("struct") and c.text(1) == "{" and c.kind(1) == "punct":
         c.next()
         c.next()
         members = parse_fields(c)
@@ -445,28 +447,29 @@ def parse_type_decl(c):
 
 
 def idents_used(toks):
+    """every identifier token outside comments, strings, the package clause and import declarations."""
     used = set()
-    i, n = 0, len(toks)
     sig = [t for t in toks if t[0] not in ("comment", "nl")]
-    n = len(sig)
+    i, n = 0, len(sig)
     while i < n:
         k, t, _ = sig[i]
         if k == "id" and t == "package" and i + 1 < n and sig[i + 1][0] == "id":
             i += 2
-            continue
-        if k == "id" and t == "import":
+        elif k == "id" and t == "import":
             i += 1
-            if i < n and sig[i][1] == "(" and sig[i][0] == "punct":
+            if i < n and sig[i][0] == "punct" and sig[i][1] == "(":
                 while i < n and not (sig[i][0] == "punct" and sig[i][1] == ")"):
                     i += 1
                 i += 1
             else:
-                while i < n and sig[i][0] in ("str",) or (i < n and sig[i][0] == "id" and sig[i + 1:i + 2] and sig[i + 1][0] == "str"):
+                if i + 1 < n and sig[i][0] != "str" and sig[i + 1][0] == "str":
+                    i += 1  # alias
+                if i < n and sig[i][0] == "str":
                     i += 1
-            continue
-        if k == "id":
-            used.add(t)
-        i += 1
+        else:
+            if k == "id":
+                used.add(t)
+            i += 1
     return sorted(used)
 
 
